@@ -23,6 +23,7 @@ import (
 	metric_exporter "github.com/alibaba/sentinel-golang/exporter/metric"
 	"github.com/alibaba/sentinel-golang/logging"
 	"github.com/alibaba/sentinel-golang/util"
+	"github.com/alibaba/sentinel-golang/util/verifhook"
 	"github.com/pkg/errors"
 )
 
@@ -79,14 +80,17 @@ func (s *State) String() string {
 }
 
 func (s *State) get() State {
+	verifhook.Yield("cb.state.get")
 	return State(atomic.LoadInt32((*int32)(s)))
 }
 
 func (s *State) set(update State) {
+	verifhook.Yield("cb.state.set")
 	atomic.StoreInt32((*int32)(s), int32(update))
 }
 
 func (s *State) cas(expect State, update State) bool {
+	verifhook.Yield("cb.state.cas")
 	return atomic.CompareAndSwapInt32((*int32)(s), int32(expect), int32(update))
 }
 
@@ -152,18 +156,22 @@ func (b *circuitBreakerBase) CurrentState() State {
 }
 
 func (b *circuitBreakerBase) retryTimeoutArrived() bool {
+	verifhook.Yield("cb.retry.load")
 	return util.CurrentTimeMillis() >= atomic.LoadUint64(&b.nextRetryTimestampMs)
 }
 
 func (b *circuitBreakerBase) updateNextRetryTimestamp() {
+	verifhook.Yield("cb.retry.store")
 	atomic.StoreUint64(&b.nextRetryTimestampMs, util.CurrentTimeMillis()+uint64(b.retryTimeoutMs))
 }
 
 func (b *circuitBreakerBase) addCurProbeNum() {
+	verifhook.Yield("cb.probe.add")
 	atomic.AddUint64(&b.curProbeNumber, 1)
 }
 
 func (b *circuitBreakerBase) resetCurProbeNum() {
+	verifhook.Yield("cb.probe.reset")
 	atomic.StoreUint64(&b.curProbeNumber, 0)
 }
 
@@ -335,6 +343,7 @@ func (b *slowRtCircuitBreaker) OnRequestComplete(rt uint64, _ error) {
 			b.fromHalfOpenToOpen(1.0)
 		} else {
 			b.addCurProbeNum()
+			verifhook.Yield("cb.probe.load")
 			if b.probeNumber == 0 || atomic.LoadUint64(&b.curProbeNumber) >= b.probeNumber {
 				// succeed to probe
 				b.fromHalfOpenToClosed()
@@ -521,6 +530,7 @@ func (b *errorRatioCircuitBreaker) OnRequestComplete(_ uint64, err error) {
 	if curStatus == HalfOpen {
 		if err == nil {
 			b.addCurProbeNum()
+			verifhook.Yield("cb.probe.load")
 			if b.probeNumber == 0 || atomic.LoadUint64(&b.curProbeNumber) >= b.probeNumber {
 				b.fromHalfOpenToClosed()
 				b.resetMetric()
@@ -704,6 +714,7 @@ func (b *errorCountCircuitBreaker) OnRequestComplete(_ uint64, err error) {
 	if curStatus == HalfOpen {
 		if err == nil {
 			b.addCurProbeNum()
+			verifhook.Yield("cb.probe.load")
 			if b.probeNumber == 0 || atomic.LoadUint64(&b.curProbeNumber) >= b.probeNumber {
 				b.fromHalfOpenToClosed()
 				b.resetMetric()
